@@ -40,6 +40,23 @@ class TraceStoreEngine:
         print(text[-3000:])
         raise ToolError('TLC failed on trace %s' % trace)
 
+    def negative_control(self, trace, consts, name):
+        """An execution in which one later answer is replaced by a value that was never written
+        must be rejected."""
+        evs = [json.loads(x) for x in open(trace).read().splitlines()[:600]]
+        cut = next((i for i, e in enumerate(evs) if i > 0 and e.get('ev') == 'reset'), len(evs))
+        one = json.loads(json.dumps(evs[:cut]))
+        idx = [i for i, e in enumerate(one) if e.get('ev') == 'step' and e.get('has_obs') == 1 and e['obs']['keys']]
+        if not idx:
+            return False
+        one[idx[-1]]['obs']['keys'][0]['r'] = {'t': 'F', 'n': 77}
+        pth = os.path.join(self.run.work, name + '.ndjson')
+        open(pth, 'w').write('\n'.join(json.dumps(e) for e in one) + '\n')
+        if self.validate(pth, name, consts)['ok']:
+            raise ToolError('negative control failed: an execution with an answer that was never written was accepted by TraceStore')
+        self.run.log('negative control: altered answer rejected by TraceStore')
+        return True
+
     def execution_around(self, trace, at):
         """the recorded execution (from its reset) that contains line `at` (1-based)"""
         lines = open(trace).read().splitlines()
